@@ -190,6 +190,40 @@ def run_session(report, drv, backend, rng, keys, tag):
         relay.close()
 
 
+def burst_duplicates(report, backend, rng, keys, tag):
+    """the same event arrives on two connections (and twice on one) before the relay has had time to write it: exactly
+    one submission is acknowledged as new, it is broadcast once, the others are refused as duplicates"""
+    relay = Relay(backend)
+    try:
+        obs = Conn(relay, remote_addr="9.9.9.9")
+        obs.send(["REQ", "watch", {"kinds": [1, 30000]}])
+        a, b = Conn(relay), Conn(relay, remote_addr="2.2.2.2")
+        kind = rng.choice([1, 30000])
+        ev = relay.signed_event(rng.choice(keys), kind=kind, content="arrives several times at once %s" % tag,
+                                tags=[["d", "x"]] if kind == 30000 else [], created_at=T0 + 900)
+        n_obs = len(obs.out)
+        a.send(["EVENT", ev], settle=False)
+        b.send(["EVENT", ev], settle=False)
+        a.send(["EVENT", ev], settle=False)
+        relay.settle()
+        oks = [f for c in (a, b) for f in c.frames() if isinstance(f, list) and f and f[0] == "OK"]
+        pushed = [f for f in obs.frames(n_obs) if isinstance(f, list) and f[0] == "EVENT" and f[2].get("id") == ev["id"]]
+        payload = {"backend": backend, "case": "burst-duplicates", "event": ev}
+        if len(oks) != 3:
+            report.property_failure("%s: %d OK frames for three EVENT messages" % (backend, len(oks)), payload, None)
+        elif sum(1 for f in oks if f[2]) != 1:
+            report.property_failure("%s: the same event submitted three times in one burst was acknowledged as new %d times"
+                                    % (backend, sum(1 for f in oks if f[2])), payload, None)
+        if len(pushed) != 1:
+            report.property_failure("%s: an event submitted three times in one burst was broadcast %d times" % (backend, len(pushed)), payload, None)
+        if ev["id"] not in relay.store.ids():
+            report.property_failure("%s: the acknowledged event is not stored" % backend, payload, None)
+        report.case((backend, "burst-duplicates", tag), nontrivial=True, sample={"backend": backend, "case": "burst-duplicates"})
+        report.count("burst_duplicates_" + backend)
+    finally:
+        relay.close()
+
+
 def run(report, tier, seed):
     rng = random.Random(seed)
     drv = common.Driver()
@@ -204,6 +238,9 @@ def run(report, tier, seed):
         "nested-array tag values; non-trivial = the session contains something other than plain valid events")
     report.assumptions += ["quiescence: the loop is settled and the LMDB writer drained after every message"]
     try:
+        for i in range(2 if tier == "quick" else 30):
+            for backend in ("sql", "kv"):
+                burst_duplicates(report, backend, rng, keys, i)
         for i in range(14 if tier == "quick" else 300):
             for backend in ("sql", "kv"):
                 run_session(report, drv, backend, rng, keys, i)
